@@ -23,7 +23,7 @@ SHOLL_RADII = [0.25 + 0.5 * k for k in range(0, 120)]
 
 
 # ------------------------------------------------------------------- measuring one tree
-def measure(t, probe, radii, collinear=False):
+def measure(t, probe, radii, collinear=False, closed_form_levels=False):
     """name -> (kind, values, degree, carrier) or ('error', message, None, carrier)."""
     from swcgeom.analysis import extract_feature, get_volume
     from swcgeom.analysis.features import BranchFeatures
@@ -45,6 +45,9 @@ def measure(t, probe, radii, collinear=False):
     put("branch_angle", "angle", 0, "BranchFeatures.get_angle", lambda: np.degrees(BranchFeatures(t).get_angle()))
     for k in (1, 2) + ((3,) if collinear else ()):
         put(f"volume{k}", "pos", 3, "get_volume", lambda: get_volume(t, accuracy=k))
+    if closed_form_levels and not collinear:
+        # levels 3 and 4 use closed forms only (no sampling) on EVERY tree: whatever they report, it may not depend on the pose
+        put("volume3", "pos", 3, "get_volume", lambda: get_volume(t, accuracy=3))
     lm = LMeasure()
     for nm in ("n_stems", "n_bifs", "n_branch", "n_tips"):
         put("lm_" + nm, "pos", 0, "LMeasure." + nm, lambda: getattr(lm, nm)(t))
@@ -147,7 +150,7 @@ def check_relation(rep, spec, notes=None):
     t = make_tree(pid, xyz, r, types)
     probe = spec.get("probe") or list(range(n))
     radii = sholl_radii(np.asarray(xyz, dtype=np.float32))
-    base = measure(t, probe, radii, spec.get("collinear", False))
+    base = measure(t, probe, radii, spec.get("collinear", False), spec.get("dyadic", False))
     rel = spec["relation"]
     factor_of = lambda deg: 1.0  # noqa: E731
     radii2, probe2, as_multiset = radii, probe, False
@@ -181,7 +184,7 @@ def check_relation(rep, spec, notes=None):
         radii2 = [R * s for R in radii]
         factor_of = lambda deg: s ** deg  # noqa: E731
         prefix = None
-    other = measure(t2, probe2, radii2, spec.get("collinear", False))
+    other = measure(t2, probe2, radii2, spec.get("collinear", False), spec.get("dyadic", False))
     for name, (kind, val, deg, carrier) in base.items():
         okind, oval, _, _ = other[name]
         if kind == "error":
@@ -271,6 +274,45 @@ def tree_inputs(tier, rng):
                 yield dict(pid=[-1] + list(range(n - 1)), xyz=xyz, r=rad, collinear=True, axis_aligned=True)
 
 
+# ---- trees on a 1/16 grid with short compartments, and translations 4e4 .. 1e6 long that move them EXACTLY in float32 (every
+# coordinate of the moved tree is representable: the two trees are congruent without any rounding, so nothing at all may change)
+FAR_OFFSETS = [(983040.0, 0.0, 0.0), (0.0, 0.0, -524288.0), (65536.0, 131072.0, -262144.0), (-999424.0, 786432.0, 589824.0),
+               (40000.0, -40000.0, 40000.0), (1000000.0, -1000000.0, 1000000.0), (0.0, 262144.0, 0.0)]
+LATTICE_DIRS = [(1, 0, 0), (0, 0, -1), (0, -1, 0), (3, 4, 0), (2, -3, 6), (1, 2, 2), (-1, -2, 2)]
+DYADIC_RADII = [0.125, 0.1875, 0.25, 0.375, 0.5, 0.75, 1.0, 1.5]
+
+
+def dyadic_inputs(tier, rng):
+    den = 16
+    for wi, w in enumerate(LATTICE_DIRS):  # collinear: chains and two-armed roots on a lattice line, radii tapering both ways
+        unit = math.sqrt(sum(c * c for c in w)) / den
+        for j in range(2 if tier == "quick" else 6):
+            n_right, n_left = rng.randint(1, 3), (rng.randint(1, 2) if j % 2 else 0)
+            pid, m = [-1], [0]
+            for sign, count in ((1, n_right), (-1, n_left)):
+                prev = 0
+                for _ in range(count):
+                    pid.append(prev)
+                    m.append(m[prev] + sign * max(1, round(rng.choice([0.25, 0.5, 1.0, 1.5, 2.0, 3.0]) / unit)))
+                    prev = len(pid) - 1
+            tt = [mi * unit for mi in m]
+            rad = []
+            for i in range(len(pid)):
+                lim = min([abs(tt[i] - tt[pid[i]])] * (pid[i] >= 0) + [abs(tt[c] - tt[i]) for c in range(len(pid)) if pid[c] == i])
+                rad.append(rng.choice(([x for x in DYADIC_RADII if x <= lim] or [lim / 2])[-3:]))
+            base = np.array([1.0, -2.0, 3.0]) if j % 3 else np.zeros(3)
+            xyz = np.array([base + mi * np.array(w, dtype=np.float64) / den for mi in m])
+            yield dict(pid=pid, xyz=xyz, r=rad, collinear=True, dyadic=True)
+    for _ in range(6 if tier == "quick" else 30):  # arbitrary small trees, steps of 1/4 .. 2 units along lattice vectors
+        n = rng.randint(3, 9)
+        pid = random_sorted_table(rng, n) if rng.random() < 0.5 else _random_binaryish(rng, n)
+        xyz = np.zeros((n, 3))
+        for i in range(1, n):
+            w = np.array(rng.choice(LATTICE_DIRS), dtype=np.float64) * rng.choice([-1, 1])
+            xyz[i] = xyz[pid[i]] + w * rng.choice([2, 4, 8]) / den
+        yield dict(pid=list(pid), xyz=xyz, r=[rng.choice(DYADIC_RADII[:6]) for _ in range(n)], collinear=False, dyadic=True)
+
+
 def _random_binaryish(rng, n):
     pid, deg = [-1], [0]
     for i in range(1, n):
@@ -288,13 +330,18 @@ def run(ctx):
     n_motion = 2 if ctx.tier == "quick" else 5
     n_renum = 2 if ctx.tier == "quick" else 5
     skipped = 0
-    for inp in tree_inputs(ctx.tier, rng):
+    import itertools
+
+    for inp in itertools.chain(tree_inputs(ctx.tier, rng), dyadic_inputs(ctx.tier, rng)):
         pid, n = inp["pid"], len(inp["pid"])
         base = dict(pid=pid, xyz=[[float(a) for a in row] for row in np.asarray(inp["xyz"], dtype=np.float32)], r=[float(x) for x in inp["r"]],
                     type=[1] + [3 if (i % 2) else 2 for i in range(1, n)], collinear=inp["collinear"],
                     probe=list(range(n)) if n <= 12 else sorted(rng.sample(range(n), 8)))
-        for k in range(n_motion):
-            steps = random_motion(rng, with_rotate=(k % 2 == 1))
+        if inp.get("dyadic"):
+            base["dyadic"] = True
+        far = rng.sample(FAR_OFFSETS, 3) if inp.get("dyadic") else []
+        for k in range(n_motion + len(far)):
+            steps = random_motion(rng, with_rotate=(k % 2 == 1)) if k < n_motion else [["translate", list(far[k - n_motion])]]
             if inp.get("axis_aligned"):  # exact quarter / half turns keep the tree parallel to an axis
                 q = math.pi / 2
                 steps = [[["rotz", q, "origin"]], [["rotx", -q, "root"], ["roty", 2 * q, "origin"]], [["roty", q, "root"], ["translate", [3.0, -2.0, 1.0]]],
@@ -323,7 +370,8 @@ def run(ctx):
     ctx.rule("every sorted parent table with <= 5 nodes (walk coordinates) + seeded random trees of 10-40 nodes (half of them binary) + collinear chains / two-armed roots; each under "
              "%d random rigid motions (2-4 steps of RotateX/Y/Z about origin or root, Translate, and Rotate(n, theta) in every second motion), %d renumberings fixing the root "
              "(alternately parents-first and arbitrary), 3 uniform scalings with radii scaled as well; ~40 feature vectors per tree. Non-trivial = at least one edge / a "
-             "non-identity renumbering" % (n_motion, n_renum), exhaustive=False)
+             "non-identity renumbering.  Plus trees on a 1/16 grid with short compartments (lattice lines in 7 directions with radii tapering both ways, and small arbitrary trees): "
+             "the same relations and 3 exact translations 4e4..1e6 long each (all coordinates stay representable in float32), volume at level 3 on all of them" % (n_motion, n_renum), exhaustive=False)
 
 
 def replay(spec):
